@@ -1391,7 +1391,10 @@ class FortranFile:
                 link_name: str = None
                 procedure_def = False
                 if obj_info.var_type[:3] == "PRO":
-                    if file_ast.current_scope.get_type() == INTERFACE_TYPE_ID:
+                    if (
+                        file_ast.current_scope is not None
+                        and file_ast.current_scope.get_type() == INTERFACE_TYPE_ID
+                    ):
                         for var_name in obj_info.var_names:
                             file_ast.add_int_member(var_name)
                         log.debug("%s !!! INTERFACE-PRO - Ln:%d", line.strip(), line_no)
@@ -2159,8 +2162,11 @@ def preprocess_file(
     def expand_func_macro(def_name: str, def_value: tuple[str, str]):
         def_args, sub = def_value
         def_args = def_args.split(",")
-        regex = re.compile(rf"\b{def_name}\s*\({','.join(['(.*)']*len(def_args))}\)")
-
+        regex = re.compile(
+            rf"\b{re.escape(def_name)}\s*\({','.join(['(.*)']*len(def_args))}\)"
+        )
+        # The body is text, not a regex template: keep its own backslashes literal
+        sub = sub.replace("\\", "\\\\")
         for i, arg in enumerate(def_args, start=1):
             sub = re.sub(rf"\b({arg.strip()})\b", rf"\\{i}", sub)
 
@@ -2195,7 +2201,7 @@ def preprocess_file(
         # Handle multiline macro continuation
         if def_cont_name is not None:
             output_file.append("")
-            is_multiline = line.strip()[-1] != "\\"
+            is_multiline = not line.strip().endswith("\\")
             line_to_append = line.strip() if is_multiline else line[0:-1].strip()
             defs_tmp[def_cont_name] = append_multiline_macro(
                 defs_tmp[def_cont_name], line_to_append
@@ -2380,13 +2386,17 @@ def preprocess_file(
                 if isinstance(value, tuple):
                     def_regex = expand_func_macro(def_tmp, value)
                 else:
-                    def_regex = re.compile(rf"\b{def_tmp}\b")
+                    def_regex = re.compile(rf"\b{re.escape(def_tmp)}\b")
                 def_regexes[def_tmp] = def_regex
 
             if isinstance(def_regex, tuple):
                 def_regex, value = def_regex
+                template = value
+            else:
+                # The macro body is inserted literally (it may contain backslashes)
+                template = str(value).replace("\\", "\\\\")
 
-            line_new, nsubs = def_regex.subn(value, line)
+            line_new, nsubs = def_regex.subn(template, line)
             if nsubs > 0:
                 log.debug(
                     "%s !!! Macro sub(%d) '%s' -> '%s'",
